@@ -1,7 +1,8 @@
 import Proofs.RepEqFilters
 import Proofs.InsertionSort
 /-!
-# `sort` and `sort_natural` respect representation equivalence (helper lemmas for C18, `d = false`)
+# `sort` and `sort_natural` respect representation equivalence (helper lemmas for C18; `sort` for every `d`,
+`sort_natural` for `d = false`)
 
 The order only looks at scalars (`values.Less`) or at printed text (`sort_natural`), so the
 sorted lists of two related arrays are related element by element (`List.map_mergeSort`). The
@@ -11,6 +12,8 @@ encoding; this test sees the representation, hence "up to `unmodelled`" (`t = tr
 
 open GoVal Cmp
 
+variable {d : Bool}
+
 namespace ArrF
 
 theorem lessTL_container_left {u : GoVal} (h : rigidF u = false) (v : GoVal) : lessTL u v = .ok false := by
@@ -19,43 +22,47 @@ theorem lessTL_container_left {u : GoVal} (h : rigidF u = false) (v : GoVal) : l
 theorem lessTL_container_right (u : GoVal) {v : GoVal} (h : rigidF v = false) : lessTL u v = .ok false := by
   cases v <;> simp [rigidF] at h <;> cases u <;> simp [lessTL, GoVal.isNil, joinKind, rkind, RKind.isInt, RKind.isFloat]
 
-theorem lessTL_repEq {u u' v v' : GoVal} (hu : RepEq false u u') (hv : RepEq false v v') : lessTL u v = lessTL u' v' := by
-  rcases repEq_false_cases hu with rfl | ⟨h1, h2⟩
-  · rcases repEq_false_cases hv with rfl | ⟨h3, h4⟩
+theorem lessTL_repEq {u u' v v' : GoVal} (hu : RepEq d u u') (hv : RepEq d v v')
+    (nu : noDrop u = true) (nu' : noDrop u' = true) (nv : noDrop v = true) (nv' : noDrop v' = true) : lessTL u v = lessTL u' v' := by
+  rcases repEq_noDrop_cases nu nu' hu with rfl | ⟨h1, h2⟩
+  · rcases repEq_noDrop_cases nv nv' hv with rfl | ⟨h3, h4⟩
     · rfl
     · rw [lessTL_container_right _ h3, lessTL_container_right _ h4]
   · rw [lessTL_container_left h1, lessTL_container_left h2]
 
-theorem toLiq_repEq {x x' : GoVal} (h : RepEq false x x') : RepEq false (toLiq x) (toLiq x') := by
-  rw [toLiq_eq_toLiquid, toLiq_eq_toLiquid]; exact toLiquid_repEq_false h
+theorem toLiq_repEq {x x' : GoVal} (h : RepEq d x x') : RepEq d (toLiq x) (toLiq x') := by
+  rw [toLiq_eq_toLiquid, toLiq_eq_toLiquid]; exact toLiquid_repEq h
 
-theorem lessB_repEq {a a' b b' : GoVal} (ha : RepEq false a a') (hb : RepEq false b b') : lessB a b = lessB a' b' := by
+theorem toLiq_noDrop (x : GoVal) : noDrop (toLiq x) = true := by
+  rw [toLiq_eq_toLiquid]; exact toLiquid_noDrop x
+
+theorem lessB_repEq {a a' b b' : GoVal} (ha : RepEq d a a') (hb : RepEq d b b') : lessB a b = lessB a' b' := by
   unfold lessB Cmp.less
-  rw [lessTL_repEq (toLiq_repEq ha) (toLiq_repEq hb)]
+  rw [lessTL_repEq (toLiq_repEq ha) (toLiq_repEq hb) (toLiq_noDrop _) (toLiq_noDrop _) (toLiq_noDrop _) (toLiq_noDrop _)]
 
-theorem sortLe_repEq {a a' b b' : GoVal} (ha : RepEq false a a') (hb : RepEq false b b') : sortLe a b = sortLe a' b' := by
+theorem sortLe_repEq {a a' b b' : GoVal} (ha : RepEq d a a') (hb : RepEq d b b') : sortLe a b = sortLe a' b' := by
   unfold sortLe; rw [lessB_repEq hb ha]
 
-theorem kclass_repEq {x x' : GoVal} (h : RepEq false x x') : kclass x = kclass x' := by
+theorem kclass_repEq {x x' : GoVal} (h : RepEq d x x') : kclass x = kclass x' := by
   have := toLiq_repEq h
   unfold kclass
-  rcases repEq_false_cases this with e | ⟨h1, h2⟩
+  rcases repEq_noDrop_cases (toLiq_noDrop x) (toLiq_noDrop x') this with e | ⟨h1, h2⟩
   · rw [e]
   · generalize toLiq x = u at *
     generalize toLiq x' = u' at *
     cases u <;> simp [rigidF] at h1 <;> cases u' <;> simp [rigidF] at h2 <;> rfl
 
-theorem smallNum_repEq {x x' : GoVal} (h : RepEq false x x') : smallNum x = smallNum x' := by
+theorem smallNum_repEq {x x' : GoVal} (h : RepEq d x x') : smallNum x = smallNum x' := by
   have := toLiq_repEq h
   unfold smallNum
-  rcases repEq_false_cases this with e | ⟨h1, h2⟩
+  rcases repEq_noDrop_cases (toLiq_noDrop x) (toLiq_noDrop x') this with e | ⟨h1, h2⟩
   · rw [e]
   · generalize toLiq x = u at *
     generalize toLiq x' = u' at *
     cases u <;> simp [rigidF] at h1 <;> cases u' <;> simp [rigidF] at h2 <;> rfl
 
-theorem all_rel {p : GoVal → Bool} (hp : ∀ x x', RepEq false x x' → p x = p x') :
-    ∀ {xs xs' : List GoVal}, normList false xs = normList false xs' → xs.all p = xs'.all p
+theorem all_rel {p : GoVal → Bool} (hp : ∀ x x', RepEq d x x' → p x = p x') :
+    ∀ {xs xs' : List GoVal}, normList d xs = normList d xs' → xs.all p = xs'.all p
   | [], [], _ => rfl
   | [], _ :: _, h => by simp [normList] at h
   | _ :: _, [], h => by simp [normList] at h
@@ -63,7 +70,7 @@ theorem all_rel {p : GoVal → Bool} (hp : ∀ x x', RepEq false x x' → p x = 
     simp only [normList, List.cons.injEq] at h
     simp only [List.all_cons, hp x x' h.1, all_rel hp h.2]
 
-theorem homog_rel {xs xs' : List GoVal} (h : normList false xs = normList false xs') : homog xs = homog xs' := by
+theorem homog_rel {xs xs' : List GoVal} (h : normList d xs = normList d xs') : homog xs = homog xs' := by
   unfold homog
   rw [all_rel (p := isClass .int) (fun x x' hx => by simp [isClass, kclass_repEq hx]) h,
     all_rel (p := smallNum) (fun x x' hx => smallNum_repEq hx) h,
@@ -74,37 +81,37 @@ theorem homog_rel {xs xs' : List GoVal} (h : normList false xs = normList false 
 
 /-- sorting with an order that only looks at normal forms gives related lists -/
 theorem mergeSort_rel (le : GoVal → GoVal → Bool)
-    (hle : ∀ a b, le a b = le (a.norm false) (b.norm false))
-    {xs xs' : List GoVal} (h : normList false xs = normList false xs') :
-    normList false (xs.mergeSort le) = normList false (xs'.mergeSort le) := by
+    (hle : ∀ a b, le a b = le (a.norm d) (b.norm d))
+    {xs xs' : List GoVal} (h : normList d xs = normList d xs') :
+    normList d (xs.mergeSort le) = normList d (xs'.mergeSort le) := by
   simp only [normList_eq_map] at h ⊢
   rw [List.map_mergeSort (s := le) (fun a _ b _ => hle a b), List.map_mergeSort (s := le) (fun a _ b _ => hle a b), h]
 
 /-! ## Go's insertion sort (at most 12 elements) with a comparator that respects the equivalence -/
 
 /-- lists related element by element -/
-abbrev NL (ys ys' : List GoVal) : Prop := normList false ys = normList false ys'
+abbrev NL (d : Bool) (ys ys' : List GoVal) : Prop := normList d ys = normList d ys'
 
-theorem NL.cons {x x' : GoVal} {ys ys' : List GoVal} (hx : RepEq false x x') (h : NL ys ys') : NL (x :: ys) (x' :: ys') := by
-  show normList false (x :: ys) = normList false (x' :: ys')
+theorem NL.cons {x x' : GoVal} {ys ys' : List GoVal} (hx : RepEq d x x') (h : NL d ys ys') : NL d (x :: ys) (x' :: ys') := by
+  show normList d (x :: ys) = normList d (x' :: ys')
   simp only [normList, List.cons.injEq]
   exact ⟨hx, h⟩
 
-theorem NL.reverse {ys ys' : List GoVal} (h : NL ys ys') : NL ys.reverse ys'.reverse := by
-  show normList false ys.reverse = normList false ys'.reverse
-  have h' : normList false ys = normList false ys' := h
+theorem NL.reverse {ys ys' : List GoVal} (h : NL d ys ys') : NL d ys.reverse ys'.reverse := by
+  show normList d ys.reverse = normList d ys'.reverse
+  have h' : normList d ys = normList d ys' := h
   simp only [normList_eq_map, List.map_reverse] at h' ⊢
   rw [h']
 
 theorem insertRevM_rel {less : GoVal → GoVal → R Bool}
-    (hl : ∀ a a' b b', RepEq false a a' → RepEq false b b' → less a b = less a' b')
-    {x x' : GoVal} (hx : RepEq false x x') :
-    ∀ {rev rev' : List GoVal}, NL rev rev' → RRel false NL (insertRevM less x rev) (insertRevM less x' rev')
+    (hl : ∀ a a' b b', RepEq d a a' → RepEq d b b' → less a b = less a' b')
+    {x x' : GoVal} (hx : RepEq d x x') :
+    ∀ {rev rev' : List GoVal}, NL d rev rev' → RRel false (NL d) (insertRevM less x rev) (insertRevM less x' rev')
   | [], [], _ => by simp only [insertRevM, RRel]; exact NL.cons hx rfl
   | [], _ :: _, h => by simp [NL, normList] at h
   | _ :: _, [], h => by simp [NL, normList] at h
   | y :: rev, y' :: rev', h => by
-    have h' : normList false (y :: rev) = normList false (y' :: rev') := h
+    have h' : normList d (y :: rev) = normList d (y' :: rev') := h
     simp only [normList, List.cons.injEq] at h'
     simp only [insertRevM, hl x x' y y' hx h'.1]
     cases less x' y' with
@@ -118,26 +125,26 @@ theorem insertRevM_rel {less : GoVal → GoVal → R Bool}
     | _ => simp [Res.bind, RRel]
 
 theorem insertionLoopM_rel {less : GoVal → GoVal → R Bool}
-    (hl : ∀ a a' b b', RepEq false a a' → RepEq false b b' → less a b = less a' b') :
-    ∀ {rest rest' : List GoVal}, NL rest rest' → ∀ {rev rev' : List GoVal}, NL rev rev' →
-      RRel false NL (insertionLoopM less rev rest) (insertionLoopM less rev' rest')
+    (hl : ∀ a a' b b', RepEq d a a' → RepEq d b b' → less a b = less a' b') :
+    ∀ {rest rest' : List GoVal}, NL d rest rest' → ∀ {rev rev' : List GoVal}, NL d rev rev' →
+      RRel false (NL d) (insertionLoopM less rev rest) (insertionLoopM less rev' rest')
   | [], [], _, _, _, hr => by simp only [insertionLoopM, RRel]; exact hr.reverse
   | [], _ :: _, h, _, _, _ => by simp [NL, normList] at h
   | _ :: _, [], h, _, _, _ => by simp [NL, normList] at h
   | x :: rest, x' :: rest', h, _, _, hr => by
-    have h' : normList false (x :: rest) = normList false (x' :: rest') := h
+    have h' : normList d (x :: rest) = normList d (x' :: rest') := h
     simp only [normList, List.cons.injEq] at h'
     simp only [insertionLoopM]
     exact RRel.bind (insertRevM_rel hl h'.1 hr) (fun r r' hrr => insertionLoopM_rel hl h'.2 hrr)
 
 theorem insertionSortM_rel {less : GoVal → GoVal → R Bool}
-    (hl : ∀ a a' b b', RepEq false a a' → RepEq false b b' → less a b = less a' b')
-    {xs xs' : List GoVal} (h : NL xs xs') : RRel false NL (insertionSortM less xs) (insertionSortM less xs') :=
+    (hl : ∀ a a' b b', RepEq d a a' → RepEq d b b' → less a b = less a' b')
+    {xs xs' : List GoVal} (h : NL d xs xs') : RRel false (NL d) (insertionSortM less xs) (insertionSortM less xs') :=
   insertionLoopM_rel hl h rfl
 
-theorem less_repEq {a a' b b' : GoVal} (ha : RepEq false a a') (hb : RepEq false b b') : Cmp.less a b = Cmp.less a' b' := by
+theorem less_repEq {a a' b b' : GoVal} (ha : RepEq d a a') (hb : RepEq d b b') : Cmp.less a b = Cmp.less a' b' := by
   unfold Cmp.less
-  rw [lessTL_repEq (toLiq_repEq ha) (toLiq_repEq hb)]
+  rw [lessTL_repEq (toLiq_repEq ha) (toLiq_repEq hb) (toLiq_noDrop _) (toLiq_noDrop _) (toLiq_noDrop _) (toLiq_noDrop _)]
 
 theorem sortM_length {xs ys : List GoVal} (h : sortM xs = .ok ys) : ys.length = xs.length := by
   unfold sortM at h
@@ -156,7 +163,7 @@ theorem sortByM_length (key : Bytes) {xs ys : List GoVal} (h : sortByM key xs = 
     · injection h with h; subst h; exact (List.mergeSort_perm _ _).length_eq
 
 /-- `values.Sort`: the exact list of two related arrays is related (both paths) -/
-theorem sortM_rel {xs xs' : List GoVal} (h : NL xs xs') : RRel false NL (sortM xs) (sortM xs') := by
+theorem sortM_rel {xs xs' : List GoVal} (h : NL d xs xs') : RRel false (NL d) (sortM xs) (sortM xs') := by
   unfold sortM
   rw [normList_length h, homog_rel h]
   split
@@ -167,40 +174,51 @@ theorem sortM_rel {xs xs' : List GoVal} (h : NL xs xs') : RRel false NL (sortM x
 
 /-! ## `sort` by a key -/
 
-theorem keyIndex_repEq (key : Bytes) {x x' : GoVal} (h : RepEq false x x') :
-    RepEq false (keyIndex key x) (keyIndex key x') := by
-  have ht := toLiquid_repEq_false h
+theorem keyIndex_noDrop (key : Bytes) (x : GoVal) : noDrop (keyIndex key x) = true := by
   unfold keyIndex
-  rcases repEq_false_cases ht with e | ⟨h1, h2⟩
+  split
+  · exact toLiquid_noDrop _
+  · exact toLiquid_noDrop _
+  · rfl
+
+theorem keyIndex_repEq (key : Bytes) {x x' : GoVal} (h : RepEq d x x') :
+    RepEq d (keyIndex key x) (keyIndex key x') := by
+  have ht := toLiquid_repEq h
+  have hnd := toLiquid_noDrop x
+  have hnd' := toLiquid_noDrop x'
+  unfold keyIndex
+  rcases repEq_noDrop_cases hnd hnd' ht with e | ⟨h1, h2⟩
   · rw [e]; exact RepEq.refl _
   · generalize x.toLiquid = u at *
     generalize x'.toLiquid = u' at *
-    have hnd : noDrop u' = true := by cases u' <;> simp_all [rigidF, noDrop]
     cases u with
     | map kt vt kvs =>
-      rcases norm_inv_map hnd ht with rfl | ⟨_, vt', kvs', rfl, _, hn⟩
+      rcases norm_inv_map hnd' ht with rfl | ⟨_, vt', kvs', rfl, _, hn⟩
       · exact RepEq.refl _
-      · cases kt <;> first | exact (mapFind_rel hn _).1 | exact RepEq.refl _
+      · cases kt <;> first | exact toLiquid_repEq (mapFind_rel hn _).1 | exact RepEq.refl _
     | slice t xs =>
-      obtain ⟨xs', hs, _⟩ := norm_inv_seq (u := .slice t xs) rfl hnd ht
+      obtain ⟨xs', hs, _⟩ := norm_inv_seq (u := .slice t xs) rfl hnd' ht
       cases u' <;> simp [seqElems?] at hs <;> exact RepEq.refl _
     | array t xs =>
-      obtain ⟨xs', hs, _⟩ := norm_inv_seq (u := .array t xs) rfl hnd ht
+      obtain ⟨xs', hs, _⟩ := norm_inv_seq (u := .array t xs) rfl hnd' ht
       cases u' <;> simp [seqElems?] at hs <;> exact RepEq.refl _
     | _ => simp [rigidF] at h1
 
-theorem lessByKey_repEq (key : Bytes) {a a' b b' : GoVal} (ha : RepEq false a a') (hb : RepEq false b b') :
+theorem keyIndex_isNil (key : Bytes) {x x' : GoVal} (h : RepEq d x x') : (keyIndex key x).isNil = (keyIndex key x').isNil :=
+  isNil_repEq_noDrop (keyIndex_noDrop key x) (keyIndex_noDrop key x') (keyIndex_repEq key h)
+
+theorem lessByKey_repEq (key : Bytes) {a a' b b' : GoVal} (ha : RepEq d a a') (hb : RepEq d b b') :
     lessByKey key a b = lessByKey key a' b' := by
   unfold lessByKey
-  rw [isNil_repEq_false (keyIndex_repEq key ha), isNil_repEq_false (keyIndex_repEq key hb),
+  rw [keyIndex_isNil key ha, keyIndex_isNil key hb,
     lessB_repEq (keyIndex_repEq key ha) (keyIndex_repEq key hb)]
 
-theorem sortByLe_repEq (key : Bytes) {a a' b b' : GoVal} (ha : RepEq false a a') (hb : RepEq false b b') :
+theorem sortByLe_repEq (key : Bytes) {a a' b b' : GoVal} (ha : RepEq d a a') (hb : RepEq d b b') :
     sortByLe key a b = sortByLe key a' b' := by
   unfold sortByLe; rw [lessByKey_repEq key hb ha]
 
-theorem keys_rel (key : Bytes) : ∀ {xs xs' : List GoVal}, normList false xs = normList false xs' →
-    normList false ((xs.map (keyIndex key)).filter nonNil) = normList false ((xs'.map (keyIndex key)).filter nonNil)
+theorem keys_rel (key : Bytes) : ∀ {xs xs' : List GoVal}, normList d xs = normList d xs' →
+    normList d ((xs.map (keyIndex key)).filter nonNil) = normList d ((xs'.map (keyIndex key)).filter nonNil)
   | [], [], _ => rfl
   | [], _ :: _, h => by simp [normList] at h
   | _ :: _, [], h => by simp [normList] at h
@@ -208,14 +226,14 @@ theorem keys_rel (key : Bytes) : ∀ {xs xs' : List GoVal}, normList false xs = 
     simp only [normList, List.cons.injEq] at h
     have hk := keyIndex_repEq key h.1
     have ih := keys_rel key h.2
-    have hn := isNil_repEq_false hk
+    have hn := keyIndex_isNil key h.1
     cases hc : (keyIndex key x').isNil with
     | true => simp only [List.map_cons, List.filter_cons, nonNil, hn, hc]; exact ih
     | false =>
       simp only [List.map_cons, List.filter_cons, nonNil, hn, hc, Bool.not_false, if_true, normList, ih]
       rw [hk]
 
-theorem homogBy_rel (key : Bytes) {xs xs' : List GoVal} (h : normList false xs = normList false xs') :
+theorem homogBy_rel (key : Bytes) {xs xs' : List GoVal} (h : normList d xs = normList d xs') :
     homogBy key xs = homogBy key xs' := homog_rel (keys_rel key h)
 
 /-- what the eager adapter does with the result of a body that returns no error value -/
@@ -229,16 +247,16 @@ theorem eager_val2 (f : List GoVal → R GoVal) (a b : GoVal) : eager f [.val a,
   simp only [eager, FilterImpl.ofEager, FilterImpl.ofEager.collect, Res.bind]
   cases f [a, b] <;> simp [wrapR]
 
-theorem wrapR_rel {t : Bool} {r r' : R GoVal} (h : RRel t (RepEq false) r r') : RRel t ExRel (wrapR r) (wrapR r') := by
-  cases r <;> cases r' <;> simp only [RRel] at h <;> simp only [wrapR, ret, RRel] <;> exact h
+theorem wrapR_rel {t : Bool} {r r' : R GoVal} (h : RRel t (RepEq false) r r') : RRel t (ExRel false) (wrapR r) (wrapR r') := by
+  cases r <;> cases r' <;> simp only [RRel] at h <;> simp only [wrapR, ret, RRel] <;> first | exact bytesToString_rel h | exact h
 
-theorem lessByKeyM_repEq (key : Bytes) {a a' b b' : GoVal} (ha : RepEq false a a') (hb : RepEq false b b') :
+theorem lessByKeyM_repEq (key : Bytes) {a a' b b' : GoVal} (ha : RepEq d a a') (hb : RepEq d b b') :
     lessByKeyM key a b = lessByKeyM key a' b' := by
   unfold lessByKeyM
-  rw [isNil_repEq_false (keyIndex_repEq key ha), isNil_repEq_false (keyIndex_repEq key hb),
+  rw [keyIndex_isNil key ha, keyIndex_isNil key hb,
     less_repEq (keyIndex_repEq key ha) (keyIndex_repEq key hb)]
 
-theorem sortByM_rel (key : Bytes) {xs xs' : List GoVal} (h : NL xs xs') : RRel false NL (sortByM key xs) (sortByM key xs') := by
+theorem sortByM_rel (key : Bytes) {xs xs' : List GoVal} (h : NL d xs xs') : RRel false (NL d) (sortByM key xs) (sortByM key xs') := by
   unfold sortByM
   rw [normList_length h, homogBy_rel key h]
   split
@@ -251,11 +269,18 @@ theorem rrel_false_cases {α} {R : α → α → Prop} {r r' : Res Cause α} (h 
     (∃ a a', r = .ok a ∧ r' = .ok a' ∧ R a a') ∨ (r = r' ∧ ∀ a, r ≠ .ok a) := by
   cases r <;> cases r' <;> simp only [RRel] at h <;> simp_all
 
+/-- related results that are no drops (a sorted array) -/
+def SR (d : Bool) (v v' : GoVal) : Prop := RepEq d v v' ∧ noDrop v = true ∧ noDrop v' = true
+
+theorem wrapSR_rel {t : Bool} {r r' : R GoVal} (h : RRel t (SR d) r r') : RRel t (ExRel d) (wrapR r) (wrapR r') := by
+  cases r <;> cases r' <;> simp only [RRel] at h <;> simp only [wrapR, ret, RRel] <;>
+    first | exact bytesToString_rel_noDrop h.1 h.2.1 h.2.2 | exact h
+
 /-- the test for a determined verbatim list: always passed up to 12 elements; beyond, it looks at
     encodings, so one side may be `unmodelled` -/
-theorem stable_out (t : Bool) (le : GoVal → GoVal → Bool) {ys ys' : List GoVal} (hn : NL ys ys')
+theorem stable_out (t : Bool) (le : GoVal → GoVal → Bool) {ys ys' : List GoVal} (hn : NL d ys ys')
     (ht : t = true ∨ ys.length ≤ maxInsertion) :
-    RRel t (RepEq false)
+    RRel t (SR d)
       (if true && !stableEnough le ys then tieOrder else .ok (.slice .any ys))
       (if true && !stableEnough le ys' then tieOrder else .ok (.slice .any ys')) := by
   have hl := normList_length hn
@@ -265,20 +290,20 @@ theorem stable_out (t : Bool) (le : GoVal → GoVal → Bool) {ys ys' : List GoV
     · exact RRel.unmL ht _ _
     · exact RRel.unmL ht _ _
     · exact RRel.unmR ht _ _
-    · exact slice_any_rel hn
+    · exact ⟨slice_any_rel hn, rfl, rfl⟩
   · have h1 : stableEnough le ys = true := by simp [stableEnough, ht]
     have h2 : stableEnough le ys' = true := by simp [stableEnough, ← hl, ht]
     simp only [h1, h2, Bool.not_true, Bool.and_false, Bool.false_eq_true, if_false]
-    exact slice_any_rel hn
+    exact ⟨slice_any_rel hn, rfl, rfl⟩
 
 /-- `sort`, `sort: key`: related results; exactly (`t = false`) when the array has at most 12
     elements, up to the `unmodelled` tie test beyond -/
-theorem sortWith_rel_gen (t : Bool) {xs xs' : List GoVal} {k k' : GoVal} (hx : NL xs xs') (hk : URel false k k')
+theorem sortWith_rel_gen (t : Bool) {xs xs' : List GoVal} {k k' : GoVal} (hx : NL d xs xs') (hk : URel d k k')
     (ht : t = true ∨ xs.length ≤ maxInsertion) :
-    RRel t (RepEq false) (sortWith true [.slice .any xs, k]) (sortWith true [.slice .any xs', k']) := by
-  have hperm : ∀ (r r' : R (List GoVal)) (le : GoVal → GoVal → Bool), RRel false NL r r' →
+    RRel t (SR d) (sortWith true [.slice .any xs, k]) (sortWith true [.slice .any xs', k']) := by
+  have hperm : ∀ (r r' : R (List GoVal)) (le : GoVal → GoVal → Bool), RRel false (NL d) r r' →
       (∀ ys, r = .ok ys → ys.length = xs.length) →
-      RRel t (RepEq false)
+      RRel t (SR d)
         (r.bind fun ys => if true && !stableEnough le ys then tieOrder else .ok (.slice .any ys))
         (r'.bind fun ys => if true && !stableEnough le ys then tieOrder else .ok (.slice .any ys)) := by
     intro r r' le hr hlen'
@@ -297,33 +322,33 @@ theorem sortWith_rel_gen (t : Bool) {xs xs' : List GoVal} {k k' : GoVal} (hx : N
     simp only [sortWith]
     exact hperm _ _ _ (sortM_rel hx) (fun ys h => sortM_length h)
   · have hn' : k' ≠ .nil := fun e => hn ((urel_nil_iff hk).mpr e)
-    have e1 : sortWith true [.slice .any xs, k] = (sprint k).bind fun nm =>
+    have e1 : sortWith true [.slice .any xs, k] = (sprintR k).bind fun nm =>
         (sortByM nm xs).bind fun ys =>
         if true && !stableEnough (sortByLe nm) ys then tieOrder else .ok (.slice .any ys) := by
       cases k <;> first | exact absurd rfl hn | rfl
-    have e2 : sortWith true [.slice .any xs', k'] = (sprint k').bind fun nm =>
+    have e2 : sortWith true [.slice .any xs', k'] = (sprintR k').bind fun nm =>
         (sortByM nm xs').bind fun ys =>
         if true && !stableEnough (sortByLe nm) ys then tieOrder else .ok (.slice .any ys) := by
       cases k' <;> first | exact absurd rfl hn' | rfl
-    rw [e1, e2, sprint_repEq_false hk.2.2]
-    cases sprint k' with
+    rw [e1, e2, sprintR_repEq hk.2.2]
+    cases sprintR k' with
     | ok nm =>
       simp only [Res.bind]
       exact hperm _ _ _ (sortByM_rel nm hx) (fun ys h => sortByM_length nm h)
     | _ => cases t <;> simp [Res.bind, RRel]
 
-theorem sortWith_rel {xs xs' : List GoVal} {k k' : GoVal} (hx : NL xs xs') (hk : URel false k k') :
-    RRel true (RepEq false) (sortWith true [.slice .any xs, k]) (sortWith true [.slice .any xs', k']) :=
+theorem sortWith_rel {xs xs' : List GoVal} {k k' : GoVal} (hx : NL d xs xs') (hk : URel d k k') :
+    RRel true (SR d) (sortWith true [.slice .any xs, k]) (sortWith true [.slice .any xs', k']) :=
   sortWith_rel_gen true hx hk (.inl rfl)
 
 /-- `sort`: the related sorted list, or `unmodelled` on a side where ties are visible -/
-theorem sort_respects : ImplRespects true [.val .anys, .val .any] (eager sort) := by
+theorem sort_respects (d : Bool) : ImplRespects true d [.val .anys, .val .any] (eager sort) := by
   intro cs cs' h
   obtain ⟨a, as, a', as', rfl, rfl, h1, h2⟩ := argsRel_cons h
   obtain ⟨k, k', rfl, rfl, hk⟩ := Num.argsRel_any1 h2
-  obtain ⟨c, c', rfl, rfl, xs, xs', rfl, rfl, hx⟩ := argRel_val h1
+  obtain ⟨c, c', rfl, rfl, xs, xs', rfl, rfl, hx, _, _⟩ := argRel_val h1
   rw [eager_val2, eager_val2]
-  exact wrapR_rel (sortWith_rel hx hk)
+  exact wrapSR_rel (sortWith_rel hx hk)
 
 /-! ## `sort_natural` -/
 
@@ -398,8 +423,8 @@ theorem natLessM_repEq (f : GoVal → R Bytes) (hf : ∀ x x', RepEq false x x' 
 
 /-- `sort.Sort(keySortable{…})`: exactly related up to 12 elements; beyond, up to the tie test -/
 theorem sortNatM_rel (t : Bool) (f : GoVal → R Bytes) (hf : ∀ x x', RepEq false x x' → f x = f x')
-    {xs xs' : List GoVal} (hx : NL xs xs') (ht : t = true ∨ xs.length ≤ maxInsertion) :
-    RRel t NL (sortNatM true f xs) (sortNatM true f xs') := by
+    {xs xs' : List GoVal} (hx : NL false xs xs') (ht : t = true ∨ xs.length ≤ maxInsertion) :
+    RRel t (NL false) (sortNatM true f xs) (sortNatM true f xs') := by
   unfold sortNatM
   rw [← normList_length hx]
   split
@@ -417,7 +442,7 @@ theorem sortNatM_rel (t : Bool) (f : GoVal → R Bytes) (hf : ∀ x x', RepEq fa
     · exact RRel.unmL rfl _ _
     · exact RRel.unmL rfl _ _
 
-theorem sortNaturalWith_rel_gen (t : Bool) {xs xs' : List GoVal} {k k' : GoVal} (hx : NL xs xs') (hk : URel false k k')
+theorem sortNaturalWith_rel_gen (t : Bool) {xs xs' : List GoVal} {k k' : GoVal} (hx : NL false xs xs') (hk : URel false k k')
     (ht : t = true ∨ xs.length ≤ maxInsertion) :
     RRel t (RepEq false) (sortNaturalWith true [.slice .any xs, k]) (sortNaturalWith true [.slice .any xs', k']) := by
   have hbody : ∀ (f : GoVal → R Bytes), (∀ x x', RepEq false x x' → f x = f x') →
@@ -432,39 +457,39 @@ theorem sortNaturalWith_rel_gen (t : Bool) {xs xs' : List GoVal} {k k' : GoVal} 
     simp only [sortNaturalWith, Res.bind]
     exact hbody natKey (fun x x' h => natKey_repEq h)
   · have hn' : k' ≠ .nil := fun e => hn ((urel_nil_iff hk).mpr e)
-    have e1 : sortNaturalWith true [.slice .any xs, k] = (sprint k).bind fun nm =>
+    have e1 : sortNaturalWith true [.slice .any xs, k] = (sprintR k).bind fun nm =>
         (sortNatM true (natKeyBy nm) xs).bind fun ys => .ok (.slice .any ys) := by
-      cases k <;> first | exact absurd rfl hn | (simp only [sortNaturalWith]; cases sprint _ <;> rfl)
-    have e2 : sortNaturalWith true [.slice .any xs', k'] = (sprint k').bind fun nm =>
+      cases k <;> first | exact absurd rfl hn | (simp only [sortNaturalWith]; cases sprintR _ <;> rfl)
+    have e2 : sortNaturalWith true [.slice .any xs', k'] = (sprintR k').bind fun nm =>
         (sortNatM true (natKeyBy nm) xs').bind fun ys => .ok (.slice .any ys) := by
-      cases k' <;> first | exact absurd rfl hn' | (simp only [sortNaturalWith]; cases sprint _ <;> rfl)
-    rw [e1, e2, sprint_repEq_false hk.2.2]
-    cases sprint k' with
+      cases k' <;> first | exact absurd rfl hn' | (simp only [sortNaturalWith]; cases sprintR _ <;> rfl)
+    rw [e1, e2, sprintR_repEq hk.2.2]
+    cases sprintR k' with
     | ok nm => exact hbody (natKeyBy nm) (fun x x' h => natKeyBy_repEq nm h)
     | _ => cases t <;> simp [Res.bind, RRel]
 
-theorem sortNaturalWith_rel {xs xs' : List GoVal} {k k' : GoVal} (hx : NL xs xs') (hk : URel false k k') :
+theorem sortNaturalWith_rel {xs xs' : List GoVal} {k k' : GoVal} (hx : NL false xs xs') (hk : URel false k k') :
     RRel true (RepEq false) (sortNaturalWith true [.slice .any xs, k]) (sortNaturalWith true [.slice .any xs', k']) :=
   sortNaturalWith_rel_gen true hx hk (.inl rfl)
 
 /-- on arrays of at most 12 elements (Go's insertion sort, modelled exactly) `sort` and `sort: key`
     respect the equivalence exactly: no `unmodelled` escape -/
-theorem sortWith_rel_short {xs xs' : List GoVal} {k k' : GoVal} (hx : NL xs xs') (hk : URel false k k')
+theorem sortWith_rel_short {xs xs' : List GoVal} {k k' : GoVal} (hx : NL d xs xs') (hk : URel d k k')
     (hlen : xs.length ≤ maxInsertion) :
-    RRel false (RepEq false) (sortWith true [.slice .any xs, k]) (sortWith true [.slice .any xs', k']) :=
+    RRel false (SR d) (sortWith true [.slice .any xs, k]) (sortWith true [.slice .any xs', k']) :=
   sortWith_rel_gen false hx hk (.inr hlen)
 
 /-- the same for `sort_natural` and `sort_natural: key` -/
-theorem sortNaturalWith_rel_short {xs xs' : List GoVal} {k k' : GoVal} (hx : NL xs xs') (hk : URel false k k')
+theorem sortNaturalWith_rel_short {xs xs' : List GoVal} {k k' : GoVal} (hx : NL false xs xs') (hk : URel false k k')
     (hlen : xs.length ≤ maxInsertion) :
     RRel false (RepEq false) (sortNaturalWith true [.slice .any xs, k]) (sortNaturalWith true [.slice .any xs', k']) :=
   sortNaturalWith_rel_gen false hx hk (.inr hlen)
 
-theorem sortNatural_respects : ImplRespects true [.val .anys, .val .any] (eager sortNatural) := by
+theorem sortNatural_respects : ImplRespects true false [.val .anys, .val .any] (eager sortNatural) := by
   intro cs cs' h
   obtain ⟨a, as, a', as', rfl, rfl, h1, h2⟩ := argsRel_cons h
   obtain ⟨k, k', rfl, rfl, hk⟩ := Num.argsRel_any1 h2
-  obtain ⟨c, c', rfl, rfl, xs, xs', rfl, rfl, hx⟩ := argRel_val h1
+  obtain ⟨c, c', rfl, rfl, xs, xs', rfl, rfl, hx, _, _⟩ := argRel_val h1
   rw [eager_val2, eager_val2]
   exact wrapR_rel (sortNaturalWith_rel hx hk)
 
@@ -473,12 +498,33 @@ end ArrF
 /-- every standard filter except those that observe the Go representation (`reprFilters`:
     `json`, `inspect`, `type`; `uniq` included since `fixes/nested-drops-resolved`) respects representation equivalence up to `unmodelled` (`d = false`),
     for every name (registered or not) -/
-theorem filterRespects_std_upto (name : Bytes) (h : name ∉ reprFilters) : FilterRespects true name :=
+theorem filterRespects_std_upto (name : Bytes) (h : name ∉ reprFilters) : FilterRespects true false name :=
   filterRespects_of_impl name (fun sg f hs hf =>
-    goodEntry_table true reprFilters
-      (fun _ => goodEntry_of_sig true ⟨ArrF.bn "sort", [.val .anys, .val .any], false⟩ (by decide +kernel) ArrF.sort_respects)
-      (fun _ => goodEntry_of_sig true ⟨ArrF.bn "sort_natural", [.val .anys, .val .any], false⟩ (by decide +kernel) ArrF.sortNatural_respects)
+    goodEntry_table true false reprFilters
+      (fun _ => goodEntry_of_sig true false ⟨ArrF.bn "sort", [.val .anys, .val .any], false⟩ (by decide +kernel) (ArrF.sort_respects false))
+      (fun _ => goodEntry_of_sig true false ⟨ArrF.bn "sort_natural", [.val .anys, .val .any], false⟩ (by decide +kernel) ArrF.sortNatural_respects)
       (fun hn => absurd (by simp [reprFilters]) hn)
       (fun hn => absurd (by simp [reprFilters]) hn)
       (fun hn => absurd (by simp [reprFilters]) hn)
+      (name, f) (lookupImpl_mem hf) h sg hs)
+
+/-- the filters left out of the theorem for drops nested in containers (`d = true`): `sort_natural` (its congruence is
+    proved for `d = false` only) and the filters that observe the Go representation. `sort` is NOT among them since
+    `fixes/sort-key-drops` (`ArrF.sort_respects`, every `d`). -/
+def nestedDropsOpen : List Bytes := [ArrF.bn "sort_natural", JsonF.bn "json", JsonF.bn "inspect", JsonF.bn "type"]
+
+/-- the engine without those four -/
+def withoutNestedOpen (n : Bytes) : Bool := !nestedDropsOpen.contains n
+
+/-- every standard filter except `sort_natural`, `json`, `inspect`, `type` — `sort` and `sort: key` included — respects
+    representation equivalence WITH drops nested in containers, up to `unmodelled` (the tie order of `sort` beyond 12
+    elements), for every name (registered or not) -/
+theorem filterRespects_std_nested (name : Bytes) (h : name ∉ nestedDropsOpen) : FilterRespects true true name :=
+  filterRespects_of_impl name (fun sg f hs hf =>
+    goodEntry_table true true nestedDropsOpen
+      (fun _ => goodEntry_of_sig true true ⟨ArrF.bn "sort", [.val .anys, .val .any], false⟩ (by decide +kernel) (ArrF.sort_respects true))
+      (fun hn => absurd (by simp [nestedDropsOpen]) hn)
+      (fun hn => absurd (by simp [nestedDropsOpen]) hn)
+      (fun hn => absurd (by simp [nestedDropsOpen]) hn)
+      (fun hn => absurd (by simp [nestedDropsOpen]) hn)
       (name, f) (lookupImpl_mem hf) h sg hs)
